@@ -185,7 +185,8 @@ type actOpts struct {
 	existing      int  // pods already on node n0 (queue qb unless existingInQa), each in one of existingSt (default running or terminating), symbolic cpu
 	existingInQa  bool
 	existingSt    []pod_status.PodStatus
-	gang          int // job j0 is a gang of this many tasks with minMember == size (0/1: single pod)
+	gang          int  // job j0 is a gang of this many tasks with minMember == size (0/1: single pod)
+	gangDead      bool // explored: the gang\'s last member has already failed and was not recreated yet
 }
 
 // actAllocateWorld: department d with leaf queues qa, qb; nodes with symbolic cpu; pending
@@ -239,6 +240,9 @@ func actAllocateWorld(o actOpts) *actWorld {
 			nds := make([]string, o.gang)
 			for k := range cpus {
 				cpus[k], sts[k] = cpu, pod_status.Pending
+			}
+			if o.gangDead && vr.AnyBool("gang.lastMemberFailed") {
+				sts[o.gang-1] = pod_status.Failed
 			}
 			w.addJob(name, q, preemptible, prio, created, int32(o.gang), cpus, sts, nds)
 			continue
